@@ -11,8 +11,10 @@
 (***************************************************************************)
 EXTENDS Serializer, TLC
 
-CONSTANTS MaxLen, MaxTape
-VARIABLES n, tags, vals, out
+CONSTANTS MaxLen, MaxTape,
+          SeedExtra     \* streams are also grown (by at most SeedExtra tags) from well-formed openings: root + container start
+VARIABLES n, tags, vals, out,
+          base          \* length of the opening the stream was grown from
 
 Big == {2000000001, 2000000002, 2000000003}     \* stand for 2^63, 2^64-1, 2^56-1 in the replayer
 AdvVals(k) == {0, 1, 2, 3, k - 1, k, k + 1, -1, -2} \cup Big
@@ -30,17 +32,25 @@ AllTags == {"\"", "l", "u", "d", "e", "n", "t", "f", "{", "}", "[", "]", "r", "N
 
 Outcome(tg, vs, k) == LET r == Deser(tg, vs, k) IN [ok |-> r.ok, tape |-> IF r.ok THEN r.tape ELSE <<>>]
 
-Init == n \in 0..MaxTape /\ tags = <<>> /\ vals = <<>> /\ out = Outcome(<<>>, <<>>, n)
+\* openings: a root spanning the whole tape and a container spanning the rest, as a valid stream would start
+Openings(k) == {<< <<>>, <<>> >>} \cup
+               (IF SeedExtra > 0 /\ k >= 3
+                THEN {<< <<"r", c>>, << <<"rel", k>>, <<"rel", k - 1>> >> >> : c \in {"{", "["}}
+                ELSE {})
 
-Next == /\ Len(tags) < MaxLen
+Init == /\ n \in 0..MaxTape
+        /\ \E o \in Openings(n) : tags = o[1] /\ vals = o[2] /\ base = Len(o[1])
+        /\ out = Outcome(tags, vals, n)
+
+Next == /\ Len(tags) < (IF base = 0 THEN MaxLen ELSE base + SeedExtra)
         /\ DeserPrefix(tags, vals, n).ok
         /\ \E tg \in AllTags : \E vs \in ValChoices(tg, n) :
              /\ tags' = Append(tags, tg)
              /\ vals' = vals \o vs
              /\ out' = Outcome(tags', vals', n)
-        /\ UNCHANGED n
+        /\ UNCHANGED <<n, base>>
 
-Spec == Init /\ [][Next]_<<n, tags, vals, out>>
+Spec == Init /\ [][Next]_<<n, tags, vals, out, base>>
 
 \* what the documented reconstruction must guarantee about an accepted tape
 Safe(t) ==
